@@ -29,7 +29,7 @@ const (
 )
 
 func TestMain(m *testing.M) {
-	vlib.Rule(fmt.Sprintf("C07 (index entry = %d bytes): rapid-generated .idx histories (puts, overwrites, tombstones; dense, clustered-around-2^32 and random 64-bit keys; offsets over the whole range of the build's offset width) are turned into a sorted index of 0..300 entries by WriteSortedFileFromIdx; present keys (random order) and absent keys are deleted cumulatively and each on a fresh copy, through EcVolume.DeleteNeedleFromEcx and through SortedFileNeedleMap.Delete; plus a bounded-exhaustive enumerator (every n<=N, every key deleted on a fresh copy, every ordered pair cumulatively). Non-trivial = sorted index with >=3 entries and a delete of a key that is not the first entry. Distinct = distinct (index content, delete order).", types.NeedleMapEntrySize))
+	vlib.Rule(fmt.Sprintf("C07 (index entry = %d bytes): rapid-generated .idx histories (puts, overwrites, tombstones; dense, clustered-around-2^32 and random 64-bit keys; offsets over the whole range of the build's offset width) are turned into a sorted index of 0..300 entries by WriteSortedFileFromIdx; present keys (random order), absent keys and already deleted keys are deleted cumulatively (with the volume unmounted and mounted again, resp. the map reloaded, before some of the deletes) and each on a fresh copy, through EcVolume.DeleteNeedleFromEcx and through SortedFileNeedleMap.Delete; plus a bounded-exhaustive enumerator (every n<=N, every key deleted on a fresh copy, every ordered pair cumulatively, with and without a re-mount between the two). Non-trivial = sorted index with >=3 entries and a delete of a key that is not the first entry. Distinct = distinct (index content, delete order).", types.NeedleMapEntrySize))
 	vlib.Assume("C07: the sorted index is produced by WriteSortedFileFromIdx from a well-formed .idx (offsets multiple of 8 below MaxPossibleVolumeSize, sizes >= 0); index files live on a local file system that honours pread/pwrite")
 	vlib.Main(m)
 }
@@ -431,7 +431,8 @@ func sameRecs(a, b []rec) bool {
 
 // runEcDeletes deletes the keys of order (present and absent, possibly repeated) from one EC volume
 // cumulatively and checks every clause of the statement. It returns whether a non-first present key was deleted.
-func runEcDeletes(t fataler, fx *ecFixture, order []uint64, fullProbe bool, rebuild bool) {
+// reopen[i] closes the EC volume and mounts it again (NewEcVolume on the same files) before delete i.
+func runEcDeletes(t fataler, fx *ecFixture, order []uint64, reopen map[int]bool, fullProbe bool, rebuild bool) {
 	present := map[uint64]bool{}
 	for _, r := range fx.live {
 		present[r.key] = true
@@ -446,9 +447,20 @@ func runEcDeletes(t fataler, fx *ecFixture, order []uint64, fullProbe bool, rebu
 	deleted := map[uint64]bool{}
 	var journal []uint64
 	ctx := func(i int) string {
-		return fmt.Sprintf("sorted index of %d entries %v, deletes so far %x", len(fx.live), briefRecs(fx.live), order[:i+1])
+		var sb strings.Builder
+		for j := 0; j <= i && j < len(order); j++ {
+			if reopen[j] {
+				sb.WriteString(" reopen")
+			}
+			fmt.Fprintf(&sb, " %x", order[j])
+		}
+		return fmt.Sprintf("sorted index of %d entries %v, deletes so far [%s]", len(fx.live), briefRecs(fx.live), strings.TrimSpace(sb.String()))
 	}
 	for i, k := range order {
+		if reopen[i] {
+			ev.Close()
+			ev = openEc(t, fx.dir)
+		}
 		if err := ev.DeleteNeedleFromEcx(types.NeedleId(k)); err != nil {
 			t.Fatalf("%s: DeleteNeedleFromEcx(%x): %v", ctx(i), k, err)
 		}
@@ -624,7 +636,16 @@ func TestPropEcxDelete(t *testing.T) {
 			}
 		}
 		order = restrictEcOrder(fx.live, order)
-		runEcDeletes(t, fx, order, n <= 48, true)
+		// the volume is unmounted and mounted again between some of the deletes
+		reopen := map[int]bool{}
+		nReopen := 0
+		if len(order) > 1 {
+			nReopen = rapid.IntRange(0, 3).Draw(t, "nReopen")
+			for i := 0; i < nReopen; i++ {
+				reopen[rapid.IntRange(1, len(order)-1).Draw(t, "reopenBefore")] = true
+			}
+		}
+		runEcDeletes(t, fx, order, reopen, n <= 48, true)
 
 		// each on a fresh copy: all keys of a small index, a sample of a large one
 		var singles []uint64
@@ -644,7 +665,7 @@ func TestPropEcxDelete(t *testing.T) {
 			f2 := &ecFixture{dir: vlib.TempDir(), live: fx.live, ecx0: fx.ecx0}
 			f2.base = filepath.Join(f2.dir, "1")
 			mustWrite(t, f2.base+".ecx", fx.ecx0)
-			runEcDeletes(t, f2, []uint64{k}, n <= 48, si == 0)
+			runEcDeletes(t, f2, []uint64{k}, nil, n <= 48, si == 0)
 			os.RemoveAll(f2.dir)
 		}
 
@@ -655,6 +676,9 @@ func TestPropEcxDelete(t *testing.T) {
 		if repeats > 0 {
 			classes = append(classes, "ecx-repeated-delete")
 		}
+		if len(reopen) > 0 {
+			classes = append(classes, "ecx-reopen-between-deletes")
+		}
 		if n > 0 && len(order) >= n {
 			classes = append(classes, "ecx-all-deleted")
 		}
@@ -664,8 +688,17 @@ func TestPropEcxDelete(t *testing.T) {
 				break
 			}
 		}
-		vlib.Case(fmt.Sprintf("ecx %s delete %x singles %x", briefFull(fx.live), order, singles), nonTrivial(fx.live, order) || nonTrivial(fx.live, singles), classes...)
+		vlib.Case(fmt.Sprintf("ecx %s delete %x reopen-before %v singles %x", briefFull(fx.live), order, sortedInts(reopen), singles), nonTrivial(fx.live, order) || nonTrivial(fx.live, singles), classes...)
 	})
+}
+
+func sortedInts(m map[int]bool) []int {
+	out := []int{}
+	for i := range m {
+		out = append(out, i)
+	}
+	sort.Ints(out)
+	return out
 }
 
 func briefFull(rs []rec) string {
@@ -714,9 +747,15 @@ func TestPropEcxDeleteExhaustive(t *testing.T) {
 			live := liveSet(hist)
 			order2 := restrictEcOrder(live, order)
 			fx := newEcFixture(t, hist)
-			runEcDeletes(t, fx, order2, true, len(order2) == 1 || item%3 == 0)
+			runEcDeletes(t, fx, order2, nil, true, len(order2) == 1 || item%3 == 0)
 			os.RemoveAll(fx.dir)
 			vlib.Case(fmt.Sprintf("ecx-exh n=%d delete %v", n, order2), nonTrivial(live, order2), "ecx-exhaustive")
+			if len(order2) == 2 { // the same pair with an unmount/mount between the two deletes
+				fx := newEcFixture(t, hist)
+				runEcDeletes(t, fx, order2, map[int]bool{1: true}, true, true)
+				os.RemoveAll(fx.dir)
+				vlib.Case(fmt.Sprintf("ecx-exh n=%d delete %v reopen between", n, order2), nonTrivial(live, order2), "ecx-exhaustive-reopen")
+			}
 		}
 	}
 	vlib.Exhaustive(fmt.Sprintf("ecx-delete-n<=%d-single-and-ordered-pairs", N), true)
@@ -759,7 +798,8 @@ func checkSdxGets(t fataler, nm *storage.SortedFileNeedleMap, live []rec, delete
 
 func sdxKnown() bool { return vlib.Known(keySdxHandle) || vlib.Known(keySdxIdxZero) }
 
-func runSdxDeletes(t fataler, hist []rec, order []uint64, delOffUnits []int64, fullProbe bool) {
+// reopen[i] closes the map and loads it again (as a volume reload does) before delete i.
+func runSdxDeletes(t fataler, hist []rec, order []uint64, delOffUnits []int64, reopen map[int]bool, fullProbe bool) {
 	dir := vlib.TempDir()
 	defer os.RemoveAll(dir)
 	base := filepath.Join(dir, "1")
@@ -787,6 +827,26 @@ func runSdxDeletes(t fataler, hist []rec, order []uint64, delOffUnits []int64, f
 	for i, k := range order {
 		ctx := fmt.Sprintf("%s, deletes so far %x", ctx0, order[:i+1])
 		off := types.ToOffset(delOffUnits[i] * 8)
+		if reopen[i] {
+			nm.Close()
+			if nm, err = openSdx(t, base); err != nil {
+				t.Fatalf("%s: reload before Delete(%x): %v", ctx, k, err)
+			}
+			// depending on the file times the .sdx was reused (tombstones in place) or regenerated from the
+			// .idx (deleted needles dropped); both are a correct index of the same live set
+			got := mustRead(t, base+".sdx")
+			if !bytes.Equal(got, sortedBytes(live, deleted)) {
+				if !bytes.Equal(got, sortedBytes(minus(live, deleted), nil)) {
+					t.Fatalf("%s: after a reload the .sdx is neither the marked nor the regenerated index: %s", ctx, briefIdx(got))
+				}
+				live = minus(live, deleted)
+				for d := range deleted {
+					delete(present, d)
+				}
+				deleted = map[uint64]bool{}
+			}
+			checkSdxGets(t, nm, live, deleted, append(allKeys(live), order...), ctx+" (reloaded before this delete)")
+		}
 		if err := nm.Delete(types.NeedleId(k), off); err != nil {
 			t.Fatalf("%s: Delete(%x): %v", ctx, k, err)
 		}
@@ -927,7 +987,13 @@ func TestPropSortedFileMapDelete(t *testing.T) {
 		for i := range offs {
 			offs[i] = genOffsetUnits().Draw(t, "deleteOffset")
 		}
-		runSdxDeletes(t, hist, order, offs, n <= 48)
+		reopen := map[int]bool{}
+		if len(order) > 1 {
+			for i, m := 0, rapid.IntRange(0, 3).Draw(t, "nReopen"); i < m; i++ {
+				reopen[rapid.IntRange(1, len(order)-1).Draw(t, "reopenBefore")] = true
+			}
+		}
+		runSdxDeletes(t, hist, order, offs, reopen, n <= 48)
 		classes := []string{"sdx-" + sizeClass(n), fmt.Sprintf("entry-size-%d", types.NeedleMapEntrySize)}
 		if nAbs > 0 {
 			classes = append(classes, "sdx-absent-delete")
@@ -935,7 +1001,10 @@ func TestPropSortedFileMapDelete(t *testing.T) {
 		if repeats > 0 {
 			classes = append(classes, "sdx-repeated-delete")
 		}
-		vlib.Case(fmt.Sprintf("sdx %v delete %x at %v", hist, order, offs), nonTrivial(live, order), classes...)
+		if len(reopen) > 0 {
+			classes = append(classes, "sdx-reload-between-deletes")
+		}
+		vlib.Case(fmt.Sprintf("sdx %v delete %x at %v reload-before %v", hist, order, offs, sortedInts(reopen)), nonTrivial(live, order), classes...)
 	})
 }
 
